@@ -269,3 +269,20 @@ impl Drop for Scratch {
         let _ = std::fs::remove_dir_all(&self.path);
     }
 }
+
+
+// ---- panic recorder: panics inside spawned tasks are swallowed by tokio; record them per thread
+thread_local! { static PANICS: std::cell::RefCell<Vec<String>> = const { std::cell::RefCell::new(Vec::new()) }; }
+pub fn install_panic_recorder() {
+    static ONCE: std::sync::Once = std::sync::Once::new();
+    ONCE.call_once(|| {
+        let prev = std::panic::take_hook();
+        std::panic::set_hook(Box::new(move |info| {
+            let _ = PANICS.try_with(|p| p.borrow_mut().push(format!("{info}")));
+            prev(info);
+        }));
+    });
+}
+pub fn take_panics() -> Vec<String> {
+    PANICS.with(|p| std::mem::take(&mut *p.borrow_mut()))
+}
